@@ -1,4 +1,4 @@
-import KafVerif.Lemmas.GroupFns
+import KafVerif.Lemmas.GroupEffect
 /-!
 C15 — Group state survives coordinator failover.
 
@@ -37,7 +37,7 @@ defaults them) and a leader that is a member (`ensureLeader`) -/
 structure WF (st : Group) : Prop where
   session : ∀ e ∈ st.members, 0 < e.2.session
   rebalance : 0 < st.rebTimeout
-  leader : st.leader ≠ 0 ∧ (lookup st.members st.leader).isSome
+  leader : st.ensureLeader.leader = st.leader
 
 theorem cloneGroup_fixed (p : PGroup) : cloneGroup fixed p = p := rfl
 
@@ -109,14 +109,25 @@ theorem _root_.KafVerif.C15.restore_build_view (st : Group) (now : Nat) (h : WF 
     simp [this, fixed]
   have hlead : (restore fixed (build st) now).leader = st.leader := by
     have hl := h.leader
-    unfold restore ensureLeader
+    unfold restore
     simp only [build, List.map_map, Function.comp_def]
-    rw [if_pos]
-    refine ⟨hl.1, ?_⟩
+    -- `ensureLeader` only looks at the leader and at the member ids, which the round trip keeps
+    unfold ensureLeader at hl ⊢
+    simp only at hl ⊢
     rw [lookup_map_val st.members _ st.leader]
-    cases hq : lookup st.members st.leader with
-    | none => rw [hq] at hl; simp at hl
-    | some x => simp
+    by_cases hc : st.leader ≠ 0 ∧ (lookup st.members st.leader).isSome = true
+    · rw [if_pos (by refine ⟨hc.1, ?_⟩; cases hq : lookup st.members st.leader with
+        | none => rw [hq] at hc; simp at hc
+        | some x => simp)]
+    · rw [if_neg hc] at hl
+      rw [if_neg (by
+        intro hh; apply hc; refine ⟨hh.1, ?_⟩
+        cases hq : lookup st.members st.leader with
+        | none => rw [hq] at hh; simp at hh
+        | some x => simp)]
+      cases hm : st.members with
+      | nil => rw [hm] at hl; simpa using hl
+      | cons e t => rw [hm] at hl; simpa using hl
   have hasg : (st.members.map fun e => (e.1, asgOf (restore fixed (build st) now) e.1)) =
       st.members.map fun e => (e.1, asgOf st e.1) := by
     apply List.map_congr_left
@@ -131,6 +142,603 @@ theorem _root_.KafVerif.C15.restore_build_view (st : Group) (now : Nat) (h : WF 
   unfold view
   rw [hmem, hlead, hrest.1, hrest.2.1, hrest.2.2.1, hrest.2.2.2.1, hrest.2.2.2.2]
   simp only [List.map_map, Function.comp_def, hasg]
+
+/-! ### every reachable group state is well formed, every persisted group is the image of one -/
+
+def headKey (ms : List (Nat × Member)) : Nat := match ms with | [] => 0 | e :: _ => e.1
+
+theorem ensureLeader_leader_eq (s : Group) :
+    s.ensureLeader.leader = if s.leader ≠ 0 ∧ (lookup s.members s.leader).isSome = true then s.leader else headKey s.members := by
+  unfold ensureLeader headKey
+  by_cases hc : s.leader ≠ 0 ∧ (lookup s.members s.leader).isSome = true
+  · rw [if_pos hc, if_pos hc]
+  · rw [if_neg hc, if_neg hc]
+    cases hm : s.members <;> rfl
+
+theorem ensureLeader_idem (s : Group) : s.ensureLeader.ensureLeader.leader = s.ensureLeader.leader := by
+  rw [ensureLeader_leader_eq s.ensureLeader, ensureLeader_members]
+  by_cases hc : s.leader ≠ 0 ∧ (lookup s.members s.leader).isSome = true
+  · have : s.ensureLeader.leader = s.leader := by rw [ensureLeader_leader_eq, if_pos hc]
+    rw [this, if_pos hc]
+  · have : s.ensureLeader.leader = headKey s.members := by rw [ensureLeader_leader_eq, if_neg hc]
+    rw [this]
+    split <;> rfl
+
+/-- the leader test of `ensureLeader` only depends on the leader and the member ids -/
+theorem ensureLeader_leader_congr (a b : Group) (hl : a.leader = b.leader) (hk : keys a.members = keys b.members) :
+    a.ensureLeader.leader = b.ensureLeader.leader := by
+  have hlook : ∀ k, (lookup a.members k).isSome = (lookup b.members k).isSome := by
+    intro k
+    have : ∀ (l : List (Nat × Member)), (lookup l k).isSome = (keys l).contains k := by
+      intro l
+      induction l with
+      | nil => rfl
+      | cons e t ih =>
+        obtain ⟨k0, v0⟩ := e
+        simp only [lookup, keys, List.map_cons, List.contains_cons]
+        by_cases h : k0 = k
+        · subst h; simp
+        · have h' : (k == k0) = false := by simp; exact fun hh => h hh.symm
+          simp only [h, if_false, h', Bool.false_or]
+          exact ih
+    rw [this, this, hk]
+  rw [ensureLeader_leader_eq, ensureLeader_leader_eq, hl, hlook b.leader]
+  have hh : headKey a.members = headKey b.members := by
+    unfold headKey
+    cases ha : a.members with
+    | nil =>
+      cases hb : b.members with
+      | nil => rfl
+      | cons e t => rw [ha, hb] at hk; simp [keys] at hk
+    | cons e t =>
+      cases hb : b.members with
+      | nil => rw [ha, hb] at hk; simp [keys] at hk
+      | cons e' t' =>
+        rw [ha, hb] at hk
+        simp only [keys, List.map_cons, List.cons.injEq] at hk
+        exact hk.1
+  rw [hh]
+
+theorem leader_valid_of_fix (s : Group) (h : s.ensureLeader.leader = s.leader) (hne : s.leader ≠ 0) :
+    (lookup s.members s.leader).isSome = true := by
+  have := ensureLeader_valid s (by rw [h]; exact hne)
+  rw [h, ensureLeader_members] at this
+  exact this
+
+theorem fix_of_valid (s : Group) (hne : s.leader ≠ 0) (hv : (lookup s.members s.leader).isSome = true) :
+    s.ensureLeader.leader = s.leader := by
+  rw [ensureLeader_leader_eq, if_pos ⟨hne, hv⟩]
+
+theorem headKey_insert_zero (l : List (Nat × Member)) (k : Nat) (v : Member) (hne : l ≠ []) (h : headKey l = 0) :
+    headKey (insert l k v) = 0 := by
+  cases l with
+  | nil => exact absurd rfl hne
+  | cons e t =>
+    obtain ⟨k0, v0⟩ := e
+    simp only [headKey] at h
+    subst h
+    unfold insert
+    split
+    · rename_i hlt; omega
+    · split
+      · rename_i h2; subst h2; rfl
+      · rfl
+
+/-- inserting a binding keeps a valid non-empty leader valid, and keeps "no leader, smallest id 0" -/
+theorem fix_insert (s : Group) (k : Nat) (v : Member) (hne : s.members ≠ []) (h : s.ensureLeader.leader = s.leader) :
+    ({ s with members := insert s.members k v } : Group).ensureLeader.leader = s.leader := by
+  by_cases hl : s.leader = 0
+  · rw [ensureLeader_leader_eq]
+    have hc : ¬ (({ s with members := insert s.members k v } : Group).leader ≠ 0 ∧
+        (lookup ({ s with members := insert s.members k v } : Group).members ({ s with members := insert s.members k v } : Group).leader).isSome = true) := by
+      intro hh; exact hh.1 hl
+    rw [if_neg hc]
+    have h0 : headKey s.members = 0 := by
+      rw [ensureLeader_leader_eq, if_neg (by intro hh; exact hh.1 hl), hl] at h; exact h
+    rw [hl]; exact headKey_insert_zero _ _ _ hne h0
+  · have hv := leader_valid_of_fix s h hl
+    have := fix_of_valid ({ s with members := insert s.members k v } : Group) hl (by
+      simp only [lookup_insert]
+      split
+      · rfl
+      · exact hv)
+    exact this
+
+structure WFN (st : Group) : Prop where
+  wf : WF st
+  nonempty : st.members ≠ []
+
+def wfSpec : Spec := { G := fun _ _ st => WFN st, P := fun _ _ p => ∃ st, p = build st ∧ WFN st }
+
+theorem startRebalance_WFN (st : Group) (t now : Nat) (hs : ∀ e ∈ st.members, 0 < e.2.session) (hr : 0 < st.rebTimeout ∨ 0 < t)
+    (hne : st.members ≠ []) : WFN (st.startRebalance t now) := by
+  have hsr := startRebalance_of_nonempty st t now hne
+  refine ⟨⟨?_, ?_, ?_⟩, ?_⟩
+  · intro e he
+    rw [hsr.2.2.2] at he
+    unfold resetJoins at he
+    obtain ⟨e0, he0, rfl⟩ := List.mem_map.mp he
+    exact hs e0 he0
+  · obtain ⟨x, _, hrt, heq⟩ := startRebalance_eq st t now hne
+    rw [heq]
+    simp only [ensureLeader_rebTimeout, hrt]
+    split
+    · assumption
+    · split
+      · simp [defaultRebalance]
+      · rcases hr with hr | hr
+        · exact hr
+        · rename_i h1 _; exact absurd hr h1
+  · -- the result is `ensureLeader` of something, with member ids unchanged by resetJoins
+    obtain ⟨x, _, _, heq⟩ := startRebalance_eq st t now hne
+    rw [heq]
+    have h1 := ensureLeader_idem x
+    have h2 := ensureLeader_leader_congr ({ x.ensureLeader with members := resetJoins x.ensureLeader.members } : Group)
+      x.ensureLeader rfl (by unfold resetJoins; exact keys_map_val _ _)
+    rw [h2, h1]
+  · rw [hsr.2.2.2]; unfold resetJoins; intro hh; exact hne (List.map_eq_nil_iff.mp hh)
+
+theorem wfSpec_closed : wfSpec.Closed where
+  monoG := by intro g log x st h; exact h
+  monoP := by intro g log x p h; exact h
+  build := by intro g log st h; exact ⟨st, rfl, h⟩
+  restore := by
+    intro g log p now h
+    obtain ⟨st, rfl, hw⟩ := h
+    have hmem : (restore fixed (build st) now).members =
+        st.members.map fun e => (e.1, { e.2 with joinGen := if st.phase = .preparing then 0 else st.gen }) := by
+      unfold restore
+      simp only [ensureLeader_members, build, List.map_map, Function.comp_def]
+      apply List.map_congr_left
+      intro e he
+      have := hw.wf.session e he
+      simp [this, fixed]
+    refine ⟨⟨?_, ?_, ?_⟩, ?_⟩
+    · intro e he
+      rw [hmem] at he
+      obtain ⟨e0, he0, rfl⟩ := List.mem_map.mp he
+      exact hw.wf.session e0 he0
+    · unfold restore; simp [build, hw.wf.rebalance]
+    · unfold restore; exact ensureLeader_idem _
+    · rw [hmem]; intro hh; exact hw.nonempty (List.map_eq_nil_iff.mp hh)
+  join := by
+    intro g log st0 mid se rb pt pr nk now h0
+    unfold joinCore
+    simp only
+    obtain ⟨m', hmem, _, _, hld, _, hrt, _, _, hsess, _⟩ := joinMember_spec st0 mid se pt pr nk now
+    generalize joinMember st0 mid se pt pr nk now = jm at hmem hld hrt
+    obtain ⟨stA, memberID, ex, prev⟩ := jm
+    simp only at hmem hld hrt ⊢
+    have hneA : stA.members ≠ [] := by rw [hmem]; exact insert_ne_nil _ _ _
+    have hsA : ∀ e ∈ stA.members, 0 < e.2.session := by
+      intro e he
+      rw [hmem] at he
+      rcases mem_insert he with rfl | he
+      · exact hsess
+      · rcases h0 with h0 | h0
+        · exact h0.wf.session e he
+        · subst h0; simp [newGroup] at he
+    have hrA : 0 < stA.rebTimeout := by
+      rw [hrt]
+      rcases h0 with h0 | h0
+      · exact h0.wf.rebalance
+      · subst h0; simp [newGroup, defaultRebalance]
+    have htimeout : 0 < timeoutOf rb := by
+      unfold timeoutOf; split
+      · simp [defaultRebalance]
+      · omega
+    -- after the phase decision: sessions and rebalance timeout positive, members non-empty
+    have hfixA : stA.leader ≠ 0 → stA.ensureLeader.leader = stA.leader := by
+      intro hl
+      rcases h0 with h0 | h0
+      · have hl0 : st0.leader ≠ 0 := by rw [← hld]; exact hl
+        have hv := leader_valid_of_fix st0 h0.wf.leader hl0
+        apply fix_of_valid _ hl
+        rw [hmem, hld, lookup_insert]
+        split
+        · rfl
+        · exact hv
+      · subst h0; rw [hld] at hl; exact absurd rfl hl
+    have h1 : (∀ e ∈ (joinPhase fixed stA memberID ex prev (topicsOfProto pr) (timeoutOf rb) now).members, 0 < e.2.session) ∧
+        0 < (joinPhase fixed stA memberID ex prev (topicsOfProto pr) (timeoutOf rb) now).rebTimeout ∧
+        (joinPhase fixed stA memberID ex prev (topicsOfProto pr) (timeoutOf rb) now).members ≠ [] ∧
+        ((joinPhase fixed stA memberID ex prev (topicsOfProto pr) (timeoutOf rb) now).leader ≠ 0 →
+          (joinPhase fixed stA memberID ex prev (topicsOfProto pr) (timeoutOf rb) now).ensureLeader.leader =
+            (joinPhase fixed stA memberID ex prev (topicsOfProto pr) (timeoutOf rb) now).leader) := by
+      rcases joinPhase_cases fixed stA memberID ex prev (topicsOfProto pr) (timeoutOf rb) now with
+        ⟨st', he, hm', _, _, _⟩ | ⟨he, _⟩ | ⟨he, _⟩
+      · rw [he]
+        have := startRebalance_WFN st' (timeoutOf rb) now (by rw [hm']; exact hsA) (Or.inr htimeout) (by rw [hm']; exact hneA)
+        exact ⟨this.wf.session, this.wf.rebalance, this.nonempty, fun _ => this.wf.leader⟩
+      · rw [he]
+        refine ⟨hsA, ?_, hneA, ?_⟩
+        rotate_left
+        · intro hl
+          have := hfixA hl
+          exact (ensureLeader_leader_congr (stA.bump (timeoutOf rb) now) stA rfl rfl).trans this
+        unfold bump; simp only
+        rw [if_pos htimeout]
+        split
+        · simp [defaultRebalance]
+        · exact htimeout
+      · rw [he]; exact ⟨hsA, hrA, hneA, hfixA⟩
+    generalize joinPhase fixed stA memberID ex prev (topicsOfProto pr) (timeoutOf rb) now = st1 at h1 ⊢
+    have hmk := joinMark_spec st1 memberID
+    have hfin := joinFinish_spec st1 memberID
+    refine ⟨⟨?_, by rw [hfin.2.2.2.2.1]; exact h1.2.1, ?_⟩, ?_⟩
+    · intro e he
+      rw [hfin.1, hmk.1] at he
+      obtain ⟨e0, he0, _, _, hse, _⟩ := mem_setJoinGen he
+      rw [hse]; exact h1.1 e0 he0
+    · -- joinFinish keeps members / leader of joinMark; joinMark elects when there is no leader
+      have hcong := ensureLeader_leader_congr (joinFinish st1 memberID).1 (joinMark st1 memberID) hfin.2.2.1 (by rw [hfin.1])
+      rw [hcong, hfin.2.2.1]
+      unfold joinMark
+      simp only
+      split
+      · exact ensureLeader_idem _
+      · rename_i hl
+        have := h1.2.2.2 hl
+        exact (ensureLeader_leader_congr ({ st1 with members := setJoinGen st1.members memberID st1.gen } : Group) st1 rfl
+          (keys_setJoinGen _ _ _)).trans this
+    · rw [hfin.1, hmk.1]; exact setJoinGen_ne_nil h1.2.2.1 _ _
+  assign := by
+    intro g log st s h hph _
+    have hsp := leaderAssign_spec s st hph
+    refine ⟨⟨by rw [hsp.2.1]; exact h.wf.session, ?_, ?_⟩, by rw [hsp.2.1]; exact h.nonempty⟩
+    · unfold leaderAssign; simp only
+      rw [markStable_of_not_dead _ (by simp [hph])]; exact h.wf.rebalance
+    · rw [hsp.2.2.2.1, ← h.wf.leader]
+      exact ensureLeader_leader_congr _ _ hsp.2.2.2.1 (by rw [hsp.2.1])
+  heartbeat := by
+    intro g log st mid m now h hm
+    refine ⟨⟨?_, h.wf.rebalance, ?_⟩, insert_ne_nil _ _ _⟩
+    · intro e he
+      rcases mem_insert he with rfl | he
+      · exact h.wf.session (mid, m) (lookup_some_mem hm)
+      · exact h.wf.session e he
+    · exact fix_insert st mid { m with lastHb := now } h.nonempty h.wf.leader
+  leave := by
+    intro g log st mid now h hne
+    unfold leaveCore
+    simp only
+    have hne' : erase st.members mid ≠ [] := by intro hh; rw [hh] at hne; simp at hne
+    have hs : ∀ e ∈ erase st.members mid, 0 < e.2.session := fun e he => h.wf.session e (List.mem_filter.mp he).1
+    split
+    · exact startRebalance_WFN _ 0 now hs (Or.inl h.wf.rebalance) hne'
+    · exact startRebalance_WFN _ 0 now hs (Or.inl h.wf.rebalance) hne'
+  cleanup := by
+    intro g log st now st' h ho
+    cases hc : cleanupOutcome st now with
+    | gone => rw [hc] at ho; simp [CleanupOutcome.group?] at ho
+    | kept st2 =>
+      rw [hc] at ho; simp only [CleanupOutcome.group?, Option.some.injEq] at ho
+      subst ho
+      rw [cleanupOutcome_kept hc]; exact h
+    | rebalanced st2 =>
+      rw [hc] at ho; simp only [CleanupOutcome.group?, Option.some.injEq] at ho
+      subst ho
+      obtain ⟨st3, hne, rfl, ⟨_, hrt⟩, hm⟩ := cleanupOutcome_rebalanced hc
+      refine startRebalance_WFN st3 0 now ?_ (Or.inl (by rw [hrt]; exact h.wf.rebalance)) hne
+      intro e he
+      rw [hm] at he
+      exact h.wf.session e (List.mem_filter.mp he).1
+
+/-! ### without store faults the persisted image is always current -/
+
+/-- writing the restored group back gives the stored image again -/
+theorem build_restore_build (st : Group) (now : Nat) (h : WF st) : build (restore fixed (build st) now) = build st := by
+  have hv := KafVerif.C15.restore_build_view st now h
+  rw [cloneGroup_fixed, cloneGroup_fixed] at hv
+  -- `build` is a function of the view
+  have hb : ∀ x : Group, build x =
+      { state := (view x).phase, protoType := (view x).protoType, protoName := (view x).protoName, leader := (view x).leader,
+        gen := (view x).gen, rebTimeoutMs := (view x).rebTimeout,
+        members := (List.zip (view x).members (view x).asg).map fun e =>
+          (e.1.1, { subs := e.1.2.1, sessionMs := e.1.2.2.1, hbAt := e.1.2.2.2, asg := e.2.2 }) } := by
+    intro x
+    unfold build view
+    simp only [PGroup.mk.injEq, true_and]
+    rw [List.zip_map', List.map_map]
+    rfl
+  rw [hb (restore fixed (build st) now), hv]
+  exact (hb st).symm
+
+/-- no pending fault on the calls that write or read the persisted groups -/
+def NF (s : State) : Prop := s.faults.put = false ∧ s.faults.del = false ∧ s.faults.fetchGroup = false
+
+/-- every loaded group has its current image in the store -/
+def Synced (s : State) : Prop := ∀ g st, lookup s.groups g = some st → lookup s.persisted g = some (build st)
+
+structure SN (s : State) : Prop where
+  nf : NF s
+  synced : Synced s
+  sorted : SortedKeys s.groups
+  inv : Inv wfSpec s
+
+theorem SN.set_persist {s1 : State} (h : SN s1) (g : Nat) (st' : Group) (hw : WFN st') :
+    SN (persist fixed (setGroup s1 g st') g (some st')).1 := by
+  have hemp : st'.members.isEmpty = false := by cases hm : st'.members <;> simp_all [hw.nonempty]
+  have hput : (setGroup s1 g st').faults.put = false := h.nf.1
+  have hp : (persist fixed (setGroup s1 g st') g (some st')).1 =
+      { setGroup s1 g st' with persisted := insert s1.persisted g (build st') } := by
+    unfold persist
+    simp only [hemp, Bool.false_eq_true, if_false, hput, cloneGroup_fixed]
+    rfl
+  rw [hp]
+  refine ⟨h.nf, ?_, sorted_insert h.sorted _ _, ?_⟩
+  · intro g' stx hl
+    simp only [setGroup, lookup_insert] at hl ⊢
+    by_cases hk : g = g'
+    · simp only [hk, if_true, Option.some.injEq] at hl ⊢; rw [hl]
+    · simp only [hk, if_false] at hl ⊢; exact h.synced g' stx hl
+  · have h1 : Inv wfSpec (setGroup s1 g st') := Inv.setGroup h.inv hw
+    have h2 := Inv.persist wfSpec_closed h1 g (some st') (fun st'' hst'' => by cases hst''; exact hw)
+    rw [hp] at h2; exact h2
+
+theorem SN.erase_persist {s1 : State} (h : SN s1) (g : Nat) :
+    SN (persist fixed { s1 with groups := erase s1.groups g } g none).1 := by
+  have hdel : ({ s1 with groups := erase s1.groups g } : State).faults.del = false := h.nf.2.1
+  have hp : (persist fixed { s1 with groups := erase s1.groups g } g none).1 =
+      { s1 with groups := erase s1.groups g, persisted := erase s1.persisted g } := by
+    unfold persist
+    simp only [h.nf.2.1, Bool.false_eq_true, if_false]
+  rw [hp]
+  refine ⟨h.nf, ?_, sorted_erase h.sorted _, ?_⟩
+  · intro g' stx hl
+    simp only [lookup_erase] at hl ⊢
+    by_cases hk : g = g'
+    · simp [hk] at hl
+    · simp only [hk, if_false] at hl ⊢; exact h.synced g' stx hl
+  · have h2 := Inv.persist wfSpec_closed (h.inv.eraseGroup g) g none (fun st'' hst'' => by cases hst'')
+    rw [hp] at h2; exact h2
+
+theorem SN.load {s s1 : State} (h : SN s) {g : Nat} {o : Option Group} (hl : loadGroup fixed s g = some (s1, o)) :
+    SN s1 ∧ (∀ st, o = some st → WFN st) := by
+  have hinv := Inv.load wfSpec_closed h.inv hl
+  rcases loadGroup_cases fixed s g with ⟨st, hs, h'⟩ | ⟨_, _, h'⟩ | ⟨_, _, _, h'⟩ | ⟨p, hn, _, hp, h'⟩ <;> rw [h'] at hl
+  · cases hl; exact ⟨h, hinv.2⟩
+  · cases hl
+  · cases hl; exact ⟨h, hinv.2⟩
+  · cases hl
+    refine ⟨⟨h.nf, ?_, sorted_insert h.sorted _ _, hinv.1⟩, hinv.2⟩
+    intro g' stx hlk
+    simp only [lookup_insert] at hlk
+    by_cases hk : g = g'
+    · subst hk
+      simp only [if_true, Option.some.injEq] at hlk
+      subst hlk
+      obtain ⟨st0, rfl, hw0⟩ := h.inv.2 (g, p) (lookup_some_mem hp)
+      show lookup s.persisted g = _
+      rw [hp, cloneGroup_fixed, build_restore_build st0 s.clock hw0.wf]
+    · simp only [hk, if_false] at hlk
+      exact h.synced g' stx hlk
+
+theorem SN.of_eq {s s' : State} (h : SN s) (hf : s'.faults.put = s.faults.put ∧ s'.faults.del = s.faults.del ∧ s'.faults.fetchGroup = s.faults.fetchGroup)
+    (hg : s'.groups = s.groups) (hp : s'.persisted = s.persisted) (hl : s'.joinLog = s.joinLog) : SN s' := by
+  refine ⟨?_, ?_, by rw [hg]; exact h.sorted, h.inv.of_eq hg hp hl⟩
+  · unfold NF; rw [hf.1, hf.2.1, hf.2.2]; exact h.nf
+  · intro g st hlk; rw [hg] at hlk; rw [hp]; exact h.synced g st hlk
+
+theorem sn_cleanupGroup {s : State} (h : SN s) (g : Nat) (st : Group) (hl : lookup s.groups g = some st) :
+    SN (cleanupGroup fixed s g st) := by
+  have hw : WFN st := h.inv.1 (g, st) (lookup_some_mem hl)
+  unfold cleanupGroup
+  split
+  · exact h.erase_persist g
+  · rename_i st' ho
+    exact h.set_persist g st' (wfSpec_closed.cleanup g s.joinLog st s.clock st' hw (by rw [ho]; rfl))
+  · rename_i st' ho
+    have : st' = st := cleanupOutcome_kept ho
+    subst this
+    -- the same group is stored again: nothing changes for the lookups
+    refine ⟨h.nf, ?_, sorted_insert h.sorted _ _, Inv.setGroup h.inv hw⟩
+    intro g' stx hlk
+    simp only [setGroup, lookup_insert] at hlk
+    by_cases hk : g = g'
+    · subst hk; simp only [if_true, Option.some.injEq] at hlk; subst hlk; exact h.synced g st' hl
+    · simp only [hk, if_false] at hlk; exact h.synced g' stx hlk
+
+/-- a fault-free step keeps "no pending fault, every loaded group persisted as it is" -/
+theorem sn_step {s : State} (h : SN s) (op : Op) (hop : ∀ k, op ≠ .fail k) : SN (step s op).1 := by
+  cases op with
+  | join g mid se rb pt pr nk =>
+    simp only [step, stepV]
+    unfold join
+    cases he : ensureGroup fixed s g with
+    | none => exact h.of_eq ⟨rfl, rfl, by simp [clearFetchGroup, h.nf.2.2]⟩ rfl rfl rfl
+    | some x =>
+      obtain ⟨s1, st0⟩ := x
+      simp only
+      have h1 : SN s1 ∧ (WFN st0 ∨ st0 = newGroup) := by
+        unfold ensureGroup at he
+        split at he
+        · cases he
+        · rename_i s2 st2 hl; cases he
+          obtain ⟨hs, hw⟩ := h.load hl
+          exact ⟨hs, Or.inl (hw _ rfl)⟩
+        · rename_i s2 hl; cases he
+          exact ⟨(h.load hl).1, Or.inr rfl⟩
+      have hw := wfSpec_closed.join g s1.joinLog st0 mid se rb pt pr nk s1.clock h1.2
+      have h2 := h1.1.set_persist g _ hw
+      exact h2.of_eq ⟨rfl, rfl, rfl⟩ rfl rfl rfl |>.of_eq ⟨rfl, rfl, rfl⟩ rfl rfl rfl |> fun h3 =>
+        ⟨h3.nf, h3.synced, h3.sorted, Inv.log wfSpec_closed h3.inv _ _⟩
+  | sync g mid gen =>
+    simp only [step, stepV]
+    unfold sync
+    split
+    · exact h.of_eq ⟨rfl, rfl, by simp [clearFetchGroup, h.nf.2.2]⟩ rfl rfl rfl
+    · rename_i s1 hl; exact (h.load hl).1
+    · rename_i s1 st hl
+      obtain ⟨h1, hw⟩ := h.load hl
+      have hw := hw st rfl
+      have hlk : lookup s1.groups g = some st := loadGroup_lookup hl
+      split
+      · exact h1
+      · split
+        · exact h1
+        · split
+          · exact h1
+          · split
+            · rename_i hcomp
+              split
+              · exact h1
+              · have hw' := wfSpec_closed.assign g s1.joinLog st s1 hw hcomp.1 hcomp.2
+                have hst := (leaderAssign_spec s1 st hcomp.1).1
+                have h1' : SN (leaderAssign s1 st).1 := h1.of_eq ⟨rfl, rfl, rfl⟩ rfl rfl rfl
+                unfold syncFinish
+                split
+                · rename_i hc; exact absurd hst hc.2
+                · exact h1'.set_persist g _ hw'
+            · unfold syncFinish
+              split
+              · -- REBALANCE_IN_PROGRESS: the unchanged group is stored again
+                refine ⟨h1.nf, ?_, sorted_insert h1.sorted _ _, Inv.setGroup h1.inv hw⟩
+                intro g' stx hlk'
+                simp only [setGroup, lookup_insert] at hlk'
+                by_cases hk : g = g'
+                · subst hk; simp only [if_true, Option.some.injEq] at hlk'; subst hlk'; exact h1.synced g st hlk
+                · simp only [hk, if_false] at hlk'; exact h1.synced g' stx hlk'
+              · exact h1.set_persist g st hw
+  | heartbeat g mid gen =>
+    simp only [step, stepV]
+    unfold heartbeat
+    split
+    · exact h.of_eq ⟨rfl, rfl, by simp [clearFetchGroup, h.nf.2.2]⟩ rfl rfl rfl
+    · rename_i s1 hl; exact (h.load hl).1
+    · rename_i s1 st hl
+      obtain ⟨h1, hw⟩ := h.load hl
+      split
+      · exact h1
+      · rename_i m hm
+        split
+        · exact h1
+        · split
+          · exact h1
+          · exact h1.set_persist g _ (wfSpec_closed.heartbeat g s1.joinLog st mid m s1.clock (hw st rfl) hm)
+  | leave g mid =>
+    simp only [step, stepV]
+    unfold leave
+    split
+    · exact h.of_eq ⟨rfl, rfl, by simp [clearFetchGroup, h.nf.2.2]⟩ rfl rfl rfl
+    · rename_i s1 hl; exact (h.load hl).1
+    · rename_i s1 st hl
+      obtain ⟨h1, hw⟩ := h.load hl
+      split
+      · exact h1
+      · split
+        · exact h1.erase_persist g
+        · rename_i hne
+          have hne' : (erase st.members mid).isEmpty = false := by simpa using hne
+          exact h1.set_persist g _ (wfSpec_closed.leave g s1.joinLog st mid s1.clock (hw st rfl) hne')
+  | commit g mid gen parts =>
+    simp only [step, stepV]
+    unfold commit
+    have hw : ∀ (parts : List (Nat × Int × Int × Nat)) (s2 : State), SN s2 → SN (commitWrites s2 g parts).1 := by
+      intro parts
+      induction parts with
+      | nil => intro s2 hi; exact hi
+      | cons e t ih =>
+        intro s2 hi
+        obtain ⟨tp, p, off, md⟩ := e
+        unfold commitWrites
+        split
+        · exact ih _ (hi.of_eq ⟨rfl, rfl, rfl⟩ rfl rfl rfl)
+        · exact ih _ (hi.of_eq ⟨rfl, rfl, rfl⟩ rfl rfl rfl)
+    split
+    · exact h.of_eq ⟨rfl, rfl, by simp [clearFetchGroup, h.nf.2.2]⟩ rfl rfl rfl
+    · rename_i s1 st hl
+      split
+      · exact hw _ _ (h.load hl).1
+      · exact (h.load hl).1
+  | fetch g parts =>
+    simp only [step, stepV, fetch]
+    have hw : ∀ (parts : List (Nat × Int)) (s2 : State), SN s2 → SN (fetchRows fixed s2 g parts).1 := by
+      intro parts
+      induction parts with
+      | nil => intro s2 hi; exact hi
+      | cons e t ih =>
+        intro s2 hi
+        obtain ⟨tp, p⟩ := e
+        unfold fetchRows
+        split
+        · exact ih _ (hi.of_eq ⟨rfl, rfl, rfl⟩ rfl rfl rfl)
+        · exact ih _ hi
+    exact hw parts s h
+  | tick d => exact h.of_eq ⟨rfl, rfl, rfl⟩ rfl rfl rfl
+  | cleanup =>
+    simp only [step, stepV]
+    unfold cleanup
+    have key : ∀ (l : List (Nat × Group)) (acc : State), SN acc → SortedKeys l →
+        (∀ e ∈ l, lookup acc.groups e.1 = some e.2) → SN (l.foldl (fun acc e => cleanupGroup fixed acc e.1 e.2) acc) := by
+      intro l
+      induction l with
+      | nil => intro acc hi _ _; exact hi
+      | cons e t ih =>
+        intro acc hi hsl hacc
+        simp only [List.foldl_cons]
+        have hst : SortedKeys t := by
+          unfold SortedKeys keys at hsl ⊢; simp only [List.map_cons, List.pairwise_cons] at hsl; exact hsl.2
+        have hlt : ∀ e' ∈ t, e.1 < e'.1 := by
+          intro e' he'
+          unfold SortedKeys keys at hsl; simp only [List.map_cons, List.pairwise_cons] at hsl
+          exact hsl.1 _ (List.mem_map.mpr ⟨e', he', rfl⟩)
+        refine ih _ (sn_cleanupGroup hi e.1 e.2 (hacc e (by simp))) hst ?_
+        intro e' he'
+        rw [cleanupGroup_other acc e.1 e'.1 e.2 (by have := hlt e' he'; omega)]
+        exact hacc e' (List.mem_cons_of_mem _ he')
+    exact key s.groups s h h.sorted (fun e he => lookup_of_mem_sorted h.sorted he)
+  | failover =>
+    exact ⟨h.nf, by intro g st hl; simp [step, stepV, lookup] at hl, sorted_nil,
+      ⟨by intro e he; simp [step, stepV] at he, h.inv.2⟩⟩
+  | load g =>
+    simp only [step, stepV]
+    split
+    · exact h.of_eq ⟨rfl, rfl, by simp [clearFetchGroup, h.nf.2.2]⟩ rfl rfl rfl
+    · rename_i s1 o hl; exact (h.load hl).1
+  | fail k => exact absurd rfl (hop k)
+  | setMeta tm => exact h.of_eq ⟨rfl, rfl, rfl⟩ rfl rfl rfl
+
+theorem sn_init : SN init :=
+  ⟨⟨rfl, rfl, rfl⟩, by intro g st hl; simp [init, lookup] at hl, sorted_nil, inv_init⟩
+
+/-- histories without injected store faults -/
+def FaultFree (ops : List Op) : Prop := ∀ op ∈ ops, ∀ k, op ≠ .fail k
+
+theorem sn_run (ops : List Op) (hff : FaultFree ops) : SN (run init ops) := by
+  have : ∀ (s : State), SN s → SN (run s ops) := by
+    induction ops with
+    | nil => intro s h; exact h
+    | cons op ops ih =>
+      intro s h
+      exact ih (fun op' hop' => hff op' (List.mem_cons_of_mem _ hop')) _ (sn_step h op (hff op (by simp)))
+  exact this init sn_init
+
+/-- **C15 (failover at any point).** For every history without injected store faults and every group
+loaded in the coordinator after it: when the coordinator is replaced (the group table is dropped) and
+the new coordinator loads the group from the store, it holds a group with the SAME generation, phase,
+leader, protocol, rebalance timeout, member set, subscriptions, session timeouts, last heartbeats and
+assignments as the old coordinator had. -/
+theorem _root_.KafVerif.C15.failover_preserves_view (ops : List Op) (hff : FaultFree ops) (g : Nat) (st : Group)
+    (h : lookup (run init ops).groups g = some st) :
+    ∃ st', lookup (run init (ops ++ [.failover, .load g])).groups g = some st' ∧ view st' = view st := by
+  have hsn := sn_run ops hff
+  have hp := hsn.synced g st h
+  have hw : WFN st := hsn.inv.1 (g, st) (lookup_some_mem h)
+  have hrun : run init (ops ++ [.failover, .load g]) = (step (step (run init ops) .failover).1 (.load g)).1 := by
+    unfold run; rw [List.foldl_append]; rfl
+  rw [hrun]
+  simp only [step, stepV]
+  have hl : loadGroup fixed { run init ops with groups := [] } g =
+      some ({ run init ops with groups := insert [] g (restore fixed (cloneGroup fixed (build st)) (run init ops).clock) },
+            some (restore fixed (cloneGroup fixed (build st)) (run init ops).clock)) := by
+    unfold loadGroup
+    simp only [lookup, hsn.nf.2.2, Bool.false_eq_true, if_false, hp]
+  simp only [hl]
+  refine ⟨restore fixed (cloneGroup fixed (build st)) (run init ops).clock, by simp [lookup_insert], ?_⟩
+  have := KafVerif.C15.restore_build_view st (run init ops).clock hw.wf
+  rw [cloneGroup_fixed] at this
+  exact this
 
 /-- **C15 (pre-fix defect, witness).** With the old `cloneConsumerGroup` a group joined with a 20 s
 session and a 40 s rebalance timeout is restored with the 30 s defaults. -/
